@@ -273,7 +273,15 @@ def writer_rows(repo: Repo, ci: ClassInfo, fn: ast.FunctionDef, qual: Optional[s
     qual = qual or f"{ci.qualname}.{fn.name}"
     rel = ci.file.rel
     from . import inline
-    fn = inline.normalize(repo, ci, fn)        # private helper generators (`yield from self._x_chunks(m)`) are part of the writer
+    # private helper generators (`yield from self._x_chunks(m)`) are part of the writer; so are helper generators of the module
+    # that a container writes (`yield from module._controller_chunks()`): their class is known here
+    recv = {}
+    try:
+        mod_k = repo.cls("Module", module="rv.modules.module")
+        recv = {"module": mod_k, "self.module": mod_k}
+    except Exception:
+        pass
+    fn = inline.normalize(repo, ci, fn, receivers=recv)
 
     def handle_yield(y: ast.AST, env, guards, loops):
         if isinstance(y, ast.YieldFrom):
